@@ -73,7 +73,7 @@ def _replay_chunk(arg: tuple[dict[str, Any], list[list[dict]], int]) -> dict:
 
 def run_families(families: list[dict[str, Any]], seed: int,
                  max_replay: int | None = None, do_spec: bool = True,
-                 ) -> dict[str, Any]:
+                 prefer: Any = None) -> dict[str, Any]:
     """Returns aggregate: spec results, mismatching behaviours, statistics."""
     with ThreadPoolExecutor(max_workers=6) as ex:
         gens = list(ex.map(_tlc_family,
@@ -86,7 +86,13 @@ def run_families(families: list[dict[str, Any]], seed: int,
     for f, g in zip(families, gens):
         hs = g['hs']
         if max_replay is not None and len(hs) > max_replay:
-            hs = rng.sample(hs, max_replay)
+            if prefer is not None:
+                # keep the behaviours the property cares most about, ties
+                # broken at random
+                hs = sorted(hs, key=lambda h: (-prefer(h), rng.random()))
+                hs = hs[:max_replay]
+            else:
+                hs = rng.sample(hs, max_replay)
         rcfgs = f['replay_cfgs'] or [f['cfg']]
         if any(c.get('W', 1) > 1 for c in rcfgs):
             hs = [h for h in hs if not h[-1]['x'].get('raises')]
